@@ -152,7 +152,7 @@ func main() {
 	flag.Parse()
 	g := gen.New(*seed)
 	st := stats{byMode: map[string]int{}, byMut: map[string]int{}, byResult: map[string]int{}, byField: map[string]int{}}
-	w := os.Stdout
+	w := gen.Out
 	for c := 0; c < *n; c++ {
 		p := fields[0]
 		full = g.Intn(100) < fullPct
